@@ -208,6 +208,17 @@ def run(chk):
         progs.append((src, "error-in-" + where))
     for _ in range(120 if chk.thorough else 24):
         progs.append((static_hazard(rng), "static-hazard"))
+    # overrides chaining to base versions that may be abstract (no body), through one or two levels, called through base and derived variables
+    for mid in (False, True):
+        for absarea in (True, False):
+            for via in ("Shape x = new Square(3);", "Square x = new Square(3);"):
+                midcls = "abstract class Poly extends Shape { public constructor() -> Poly { super(); } public override function sides() -> int { return super.sides() + 1; } }\n" if mid else ""
+                progs.append(("abstract class Shape { public constructor() -> Shape { } public virtual function area() -> int%s public virtual function sides() -> int { return 0; } }\n%s"
+                              "class Square extends %s { public int s; public constructor(int s) -> Square { super(); this.s = s; }\n"
+                              "  public override function sides() -> int { return super.sides() + 4; }\n"
+                              "  public override function area() -> int { int base = super.area(); return this.s * this.s + base; } }\n"
+                              "function main() -> void { %s echo(x.sides()); echo(x.area()); }"
+                              % (";" if absarea else " { return 1; }", midcls, "Poly" if mid else "Shape", via), "abstract-super"))
     # members named like built-in gates: every gate x own arity x call form, inside and outside the class
     for g in ["h", "x", "y", "z", "rx", "ry", "rz", "cx"]:
         for params in ["", "int a", "int a, int b"]:
